@@ -7,6 +7,7 @@ from .common import *
 
 KNOWN_CLASSES = {
     ('C06', 'synth_name_collision'): 'C06-synthesised-name-collision',
+    ('C06', 'id_case_collision'): 'C06-ids-equal-up-to-case-and-punctuation',
     ('C07', 'array_component_inline_items'): 'C07-array-component-inline-items',
     ('C15', 'several_servers_not_env'): 'C15-several-servers-not-env',
     ('C17', 'doc_dropped_non_struct'): 'C17-description-dropped-on-non-struct',
